@@ -130,7 +130,7 @@ pub fn validate_caps_text(s: &str) -> Result<(), Error> {
             None => return Err(Error::InvalidFileCaps("`+/-/=` not found".to_owned())),
         };
 
-        if index == 0 && !s.starts_with('=') {
+        if index == 0 && !part.starts_with('=') {
             // Example: "+eip" or "-eip"
             return Err(Error::InvalidFileCaps(format!(
                 "Unexpected first char of `{}`",
